@@ -2518,6 +2518,9 @@ class Attribute:
     def __setattr__(self, name, value):
         raise FrozenInstanceError
 
+    def __delattr__(self, name):
+        raise FrozenInstanceError
+
     @classmethod
     def from_counting_attr(cls, name: str, ca: _CountingAttr, type=None):
         # type holds the annotated value. deal with conflicts:
